@@ -440,10 +440,13 @@ func runC18(t *testing.T, r *engine.Run) {
 			}
 			before := len(ca.issued)
 			_ = lastDefaultRoots
-			allDefault := true
+			allDefault, allRoot := true, true
 			for _, c := range calls {
 				if !c.done && c.resource != security.WorkloadKeyCertResourceName {
 					allDefault = false
+				}
+				if !c.done && c.resource == security.WorkloadKeyCertResourceName {
+					allRoot = false
 				}
 			}
 			cbBefore := len(cbs)
@@ -460,8 +463,11 @@ func runC18(t *testing.T, r *engine.Run) {
 					break
 				}
 				served := strings.Join(ca.issued[len(ca.issued)-1].roots, "")
-				if !allDefault {
-					rootsCached = "?"
+				if allRoot {
+					// only the requester learns the root of a signing triggered by a ROOTCA request: nothing has been
+					// announced, so the next workload-certificate signing still owes the announcement (rootsCached stays)
+				} else if !allDefault {
+					rootsCached = "?" // mixed callers: which of them triggered the signing is not observable
 				} else {
 					if rootsCached != "?" && rootsCached != served {
 						// evaluated once the signing caller has run to completion (it may be frozen before caching)
